@@ -809,6 +809,18 @@ def check_prefix(case):
         if extra:
             raise Violation("guess-keys", f"{what}: keys {sorted(extra)!r} are not parameter names "
                                           f"{sorted(m.param_names)!r}")
+    # a complete guess is a parameter set: it carries the units the parameters imply, i.e. the model
+    # can be called with it on the same x and answers in the unit of y (a polynomial guess with
+    # inverted coefficient units makes every fit fail with UnitError)
+    if set(g1) == m1.param_names:
+        try:
+            gv = m1(gx, **g1)
+        except sc.UnitError as e:
+            raise Violation("guess-units", f"model(x, **model.guess(data)) raises UnitError: the guessed parameters "
+                                           f"{ {k: str(v.unit) for k, v in sorted(g1.items())} } do not carry the units "
+                                           f"implied by x [{xu}] and y [{yu}]: {str(e)[:120]}") from None
+        if gv.unit != sc.Unit(yu):
+            raise Violation("guess-units", f"model(x, **model.guess(data)) has unit {gv.unit!r}, data are in {yu}")
     _same_vars({nm1[k]: v for k, v in g1.items()}, g2, "guess")
     _same_vars(_strip(g1, spec1["prefix"], "guess"), _strip(g3, top3, "guess"), "guess after with_prefix")
 
